@@ -542,10 +542,12 @@ Inductive op : Type :=
 (* vector interface *)
 | VInsert (c h : nat) | VRemove (c p : nat)
 (* map interface: the map takes copies *)
-| MSet (m k v : nat) | MRemove (m k : nat)
+| MSet (m k v : nat) | MSetPair (m p : nat) | MSetOwn (m k : nat) (pairform : bool) | MRemove (m k : nat)
 | MKeys (m : nat) (dst : option nat) | MValues (m : nat) (dst : option nat) | MPairs (m : nat) (dst : option nat)
 (* any container *)
-| ToArray (c : nat) | Iterator (c : nat).
+| ToArray (c : nat) | Iterator (c : nat)
+(* the non-allocating queries of a container, with a probe object *)
+| Query (c h : nat).
 
 (* ---- helpers of step ---- *)
 Definition str_obj (t : text) : obj := OStr (Some t).            (* spif_str_new_from_ptr / _from_buff *)
@@ -720,6 +722,66 @@ Definition is_empty_state (o : obj) : bool :=
   | OUrl None cs => forallb (fun x => match x with None => true | Some _ => false end) cs
   | _ => false
   end.
+
+(* the body of spif_array_set / spif_linked_list_set / spif_dlinked_list_set once key and value are
+   known (given separately, or unpacked from a pair): look for the first entry equal to the key;
+   found: spif_objpair_set_value(entry, DUP(value)); not found: insert(objpair_new_from_both(key,
+   value)), which dups both.  Neither ko nor vo changes hands. *)
+Definition map_scan (ko : obj) : list (option obj) -> nat -> res (option nat) :=
+  fix go (l : list (option obj)) (n : nat) : res (option nat) :=
+    match l with
+    | [] => Ok None
+    | s :: t => cres <- comp_elem s ko ;; if is_eq cres then Ok (Some n) else go t (S n)
+    end.
+Definition map_set (w : world) (m : nat) (ko vo : obj) : res (world * out) :=
+  mo <- get w m ;;
+  '(i, c, a, al, xs) <- as_cont mo ;;
+  _ <- want_iface i IMap ;;
+  if negb (storable ko) || negb (storable vo) then Fault Abort else
+  (* for (...) if (EQUAL(COMP(items[i], key))) break; *)
+  hit <- map_scan ko xs O ;;
+  v' <- copy pcre vo ;;
+  match hit with
+  | Some n =>
+    (* spif_objpair_set_value(pair, DUP(value)): the old value is deleted *)
+    match nth n xs None with
+    | Some (OPair pk pv) =>
+      let (v2, na) := relabel v' (naddr w) in
+      Ok (mkWorld (put m (OCont i c a al (Buf.upd xs n (Some (OPair pk (Some v2))))) (held w)) (next w) na
+                  (ledger w + dup_cost pcre vo - rel_opt pv), RBool true)
+    | _ => Fault Abort
+    end
+  | None =>
+    (* insert(objpair_new_from_both(key, value)) *)
+    k' <- copy pcre ko ;;
+    let (pr, na) := relabel (OPair (Some k') (Some v')) (naddr w) in
+    xs' <- c_insert c pr xs ;;
+    Ok (mkWorld (put m (OCont i c a (match c with Arr => true | _ => al end) xs') (held w)) (next w) na
+                (ledger w + 1 + dup_cost pcre ko + dup_cost pcre vo
+                 + match c with Arr => if al then 0 else 1 | _ => 1 end), RBool false)
+  end.
+
+(* the queries that hand out numbers or borrowed pointers - count, get, contains, find, index; map
+   get, has_key, has_value - allocate nothing, free nothing and change nothing.  The probe must be
+   comparable with everything it can be compared to (elements; for a map the entries and their
+   values); NULL placeholders are skipped by the (repaired) routines. *)
+Definition query_walk (i : iface) (probe : obj) : list (option obj) -> res unit :=
+  fix go (l : list (option obj)) : res unit :=
+    match l with
+    | [] => Ok tt
+    | None :: t => go t
+    | Some e :: t =>
+      (* list / vector queries compare in either direction (array: element first; the linked
+         classes' find and index: probe first); map get / has_key compare entry with key,
+         has_value compares the stored value with the probe *)
+      _ <- comp e probe ;;
+      _ <- (match i, e with
+            | IMap, OPair _ (Some v) => (_ <- comp v probe ;; Ok tt)
+            | IMap, _ => Ok tt
+            | _, _ => (_ <- comp probe e ;; Ok tt)
+            end) ;;
+      go t
+    end.
 
 Definition step (w : world) (o : op) : res (world * out) :=
   match o with
@@ -926,35 +988,34 @@ Definition step (w : world) (o : op) : res (world * out) :=
 
   (* ---- map interface ---- *)
   | MSet m k v =>
-    mo <- get w m ;; ko <- get w k ;; vo <- get w v ;;
+    _ <- get w m ;; ko <- get w k ;; vo <- get w v ;;
+    if Nat.eqb m k || Nat.eqb m v then Fault Abort else map_set w m ko vo
+  | MSetPair m p =>
+    (* SPIF_MAP_SET(map, pair, NULL): the three *_set routines unpack key and value from the pair;
+       the pair itself stays the caller's.  A pair without key or value (objpair_new_from_both
+       ASSERTs both) is an error of the program *)
+    _ <- get w m ;; po <- get w p ;;
+    if Nat.eqb m p then Fault Abort else
+    match po with
+    | OPair (Some ko) (Some vo) => map_set w m ko vo
+    | _ => Fault Abort
+    end
+  | MSetOwn m k pairform =>
+    (* the map's own stored objects passed back to it: e = the first entry equal to the key;
+       pairform = false: SPIF_MAP_SET(map, key, e->value); true: SPIF_MAP_SET(map, e, NULL).
+       No such entry: set is not called *)
+    mo <- get w m ;; ko <- get w k ;;
     '(i, c, a, al, xs) <- as_cont mo ;;
     _ <- want_iface i IMap ;;
-    if Nat.eqb m k || Nat.eqb m v || negb (storable ko) || negb (storable vo) then Fault Abort else
-    (* for (...) if (EQUAL(COMP(items[i], key))) break; *)
-    hit <- (fix go (l : list (option obj)) (n : nat) : res (option nat) :=
-              match l with
-              | [] => Ok None
-              | s :: t => cres <- comp_elem s ko ;; if is_eq cres then Ok (Some n) else go t (S n)
-              end) xs O ;;
-    v' <- copy pcre vo ;;
+    if Nat.eqb m k then Fault Abort else
+    hit <- map_scan ko xs O ;;
     match hit with
+    | None => Ok (w, RBool false)
     | Some n =>
-      (* spif_objpair_set_value(pair, DUP(value)): the old value is deleted *)
       match nth n xs None with
-      | Some (OPair pk pv) =>
-        let (v2, na) := relabel v' (naddr w) in
-        Ok (mkWorld (put m (OCont i c a al (Buf.upd xs n (Some (OPair pk (Some v2))))) (held w)) (next w) na
-                    (ledger w + dup_cost pcre vo - rel_opt pv), RBool true)
+      | Some (OPair (Some pk) (Some pv)) => map_set w m (if pairform then pk else ko) pv
       | _ => Fault Abort
       end
-    | None =>
-      (* insert(objpair_new_from_both(key, value)) *)
-      k' <- copy pcre ko ;;
-      let (pr, na) := relabel (OPair (Some k') (Some v')) (naddr w) in
-      xs' <- c_insert c pr xs ;;
-      Ok (mkWorld (put m (OCont i c a (match c with Arr => true | _ => al end) xs') (held w)) (next w) na
-                  (ledger w + 1 + dup_cost pcre ko + dup_cost pcre vo
-                   + match c with Arr => if al then 0 else 1 | _ => 1 end), RBool false)
     end
   | MRemove m k =>
     ko <- get w k ;;
@@ -973,6 +1034,14 @@ Definition step (w : world) (o : op) : res (world * out) :=
     co <- get w c ;;
     '(i, k, a, al, xs) <- as_cont co ;;
     Ok (hand_back w (Some (OIter k c)) (held w) (naddr w) (ledger w + 1))
+  | Query c h =>
+    co <- get w c ;; po <- get w h ;;
+    '(i, k, a, al, xs) <- as_cont co ;;
+    if Nat.eqb c h || negb (storable po) then Fault Abort else
+    match query_walk i po xs with
+    | Ok _ => Ok (w, RUnit)
+    | Fault _ => Fault Abort                 (* type confusion inside a comparison *)
+    end
   end.
 
 (* a program is a list of operations; outputs in order *)
